@@ -346,6 +346,17 @@ pub fn exec_build_case(rest: &str) -> String {
                 if let Err(e) = f.verify() {
                     x = format!("verify failed: {}", e);
                 }
+                // the public wrappers over the same bytes must give what this raw enumeration implies
+                if x == "ok" {
+                    if let Err(e) = crate::wrap::enum_wrappers(bytes, &f, &kvs) {
+                        x = e;
+                    }
+                }
+                if x == "ok" && ty == 0 && (rows, cols) == (drows(), dcols()) && ops.iter().map(|o| o.key().len() + 1).sum::<usize>() <= 8192 {
+                    if let Err(e) = crate::wrap::builder_wrappers(fe, &ops, sem != "calls", bytes) {
+                        x = e;
+                    }
+                }
                 format!("r={};c={};len={}", out.results.join(","), fmt_kvs(&kvs), f.len())
             }
             Err(e) => format!("r={};openfail:{}", out.results.join(","), e),
